@@ -72,7 +72,7 @@ def bezier(R, kind, stratum="generic", start=None):
     return {"k": "C", "s": pts[0], "c1": pts[1], "c2": pts[2], "e": pts[3]}
 
 
-ARC_STRATA = ["endpoint", "endpoint-scaled", "half-turn", "near-full", "centre", "centre-multi-turn", "circular", "eccentric", "tiny-sweep", "rot-90"]
+ARC_STRATA = ["endpoint", "endpoint-scaled", "half-turn", "near-full", "centre", "centre-multi-turn", "circular", "near-circular", "eccentric", "tiny-sweep", "rot-90"]
 
 
 def arc(R, stratum="endpoint", start=None):
@@ -81,7 +81,7 @@ def arc(R, stratum="endpoint", start=None):
     if stratum == "rot-90":
         rot = R.choice([0.0, 90.0, 180.0, 270.0, -90.0, 360.0])
     fa, fs = R.randint(0, 1), R.randint(0, 1)
-    if stratum in ("endpoint", "endpoint-scaled", "half-turn", "rot-90", "eccentric", "circular"):
+    if stratum in ("endpoint", "endpoint-scaled", "half-turn", "rot-90", "eccentric", "circular", "near-circular"):
         chord = R.choice([1.0, 10.0, R.uniform(0.5, 300)])
         ang = R.uniform(0, 2 * math.pi)
         e = [s[0] + chord * math.cos(ang), s[1] + chord * math.sin(ang)]
@@ -94,6 +94,9 @@ def arc(R, stratum="endpoint", start=None):
                 e = [s[0] + chord, s[1]]
         elif stratum == "circular":
             rx = ry = chord * R.uniform(0.55, 5)
+        elif stratum == "near-circular":
+            rx = chord * R.uniform(0.55, 5)
+            ry = rx + R.choice([-1, 1]) * R.choice([1e-13, 1e-11, 1e-9, 1e-6, 1e-4, 1e-3, 5e-3, 2e-2]) * R.choice([1.0, rx])
         elif stratum == "eccentric":
             rx = chord * R.uniform(0.6, 3)
             ry = rx * R.choice([0.01, 0.02, 50.0, 100.0])
